@@ -38,7 +38,7 @@ def _case(args):
     blur = USAGE_BLURS[seed % len(USAGE_BLURS)]
     if want == "C16" and blur is None:
         blur = 45
-    cfg = {"allow_list": rng.random() < 0.8, "usage": True if want in ("C16", "C14", "C03") else rng.random() < 0.7, "blur": blur}
+    cfg = {"allow_list": rng.random() < 0.8, "usage": True if want in ("C16", "C14", "C03", "C15") else rng.random() < 0.7, "blur": blur}
     res = {"seed": seed, "profile": "lock", "cfg": cfg, "n_events": 0, "div": None, "mon": {},
            "nontrivial": {"C09": 0, "C16": 0, "C02": 0, "C14": 0, "C03": 0}, "kf": [], "stale": [], "kinds": {}, "meta": {}, "no_model": True}
     try:
@@ -46,7 +46,8 @@ def _case(args):
     except Exception:
         return {"seed": seed, "profile": "lock", "harness_error": traceback.format_exc()}
     events = []
-    viol09, viol16, viol10, viol13, viol02, viol14, viol03 = [], [], [], [], [], [], []
+    viol09, viol16, viol10, viol13, viol02, viol14, viol03, viol15 = [], [], [], [], [], [], [], []
+    ledger = {"np": set(), "mb_now": set(), "mb_n": 0}      # C15: every nameplate row id / mailbox incarnation ever stored
     arrivals = []            # every time at which the server was handed anything
     try:
         def in_tx():
@@ -64,6 +65,12 @@ def _case(args):
             exc = w.do_base(ev)
             if ev["k"] == "advance":
                 arrivals.append(w.t)
+            if want == "C15":
+                ch = w.dump_chan(w.chan_db)
+                ledger["np"].update(r[0] for r in ch["np"])
+                now_mb = set((r[0], r[1]) for r in ch["mb"])
+                ledger["mb_n"] += len(now_mb - ledger["mb_now"])
+                ledger["mb_now"] = now_mb
             log = list(w.log)
             res["kinds"]["ev:" + ev["k"]] = res["kinds"].get("ev:" + ev["k"], 0) + 1
             if exc:
@@ -132,7 +139,16 @@ def _case(args):
         which = "U" if (want == "C16" or (want in ("C14", "C07", "C08", "C03") and cfg["usage"] and rng.random() < 0.7) or (cfg["usage"] and rng.random() < (0.6 if want == "C13" else 0.4))) else "C"
         mode = rng.choice(["shared", "reserved"])
         rounds = rng.choice([1, 1, 2])
+        if want == "C15":
+            # an outside READER of the usage database (a stats collector) while a sweep has something to expire: the sweep's
+            # usage commit fails, is logged, and goes through at the next tick -- still one record per retirement
+            which, mode = "U", "shared"
         for _round in range(rounds):
+            # (C02) the other subscriber closes properly first, so that the close that meets the fault is the LAST one
+            pre_close = want == "C02" and _round == 0 and rng.random() < 0.5
+            if pre_close and c1 in w.conns:
+                do({"k": "cmd", "c": c1, "msg": {"type": "close", "mood": "happy"}})
+                closed_or_dropped.add(c1)
             lock(which, mode)
             acked = None
             c3, b3 = client(app, rng.choice(["s1", "s2", "s3"]))
@@ -143,17 +159,25 @@ def _case(args):
             kind = rng.choice(cands)
             if want == "C13" and rng.random() < 0.7:
                 kind = "sweep"
+            if want == "C15":
+                kind = "sweep"
+                for c in (c1, c2):
+                    if c in w.conns:
+                        do({"k": "disconnect", "c": c})
+                do({"k": "advance", "dt": w.EXP - w.PERIOD + 1, "fault": False})      # (sweeps before this one find nothing old enough)
             if want == "C02" and which == "C" and rng.random() < 0.7:
                 kind = "open"
             if want in ("C14", "C07", "C08") and rng.random() < 0.8:
                 kind = rng.choice(["release", "close"])
             if want == "C03" and rng.random() < 0.8:
                 kind = "release"
+            if pre_close:
+                kind = "close"
             if kind == "bind":
                 do({"k": "cmd", "c": c3, "msg": b3}, faulted=True)
             elif kind == "sweep":
                 res["nontrivial"]["C13"] = res["nontrivial"].get("C13", 0) + 1
-                do({"k": "advance", "dt": w.PERIOD, "fault": False}, faulted=True)
+                do({"k": "advance", "dt": w.PERIOD, "fault": False}, faulted=(want != "C15"))
             elif kind == "add":
                 do({"k": "cmd", "c": c1, "msg": {"type": "add", "phase": "q", "body": "01"}}, faulted=True)
             elif kind == "release":
@@ -244,6 +268,22 @@ def _case(args):
             elif got != want_rcpt:
                 viol02.append("add by connection %d (after a command of another connection had failed on a locked database and "
                               "the lock was gone): delivered to connections %s, subscribed are %s" % (sender, got, want_rcpt))
+        # a connection whose close failed on the locked database and that is nevertheless still connected (an error path
+        # that keeps the connection): if the server accepts and stores an `add` from it, every subscriber gets it
+        for x in sorted(closed_or_dropped):
+            if x not in w.conns:
+                continue
+            n0 = len(w.dump_chan(w.chan_db)["msg"])
+            exc, log = do({"k": "cmd", "c": x, "msg": {"type": "add", "phase": "afterclose", "body": "%02x" % x}})
+            n1 = len(w.dump_chan(w.chan_db)["msg"])
+            errs = [e for e in log if e[0] == "F" and e[1] == x and e[3] == "error"]
+            got = sorted(e[1] for e in log if e[0] == "F" and e[3] == "message")
+            want_rcpt = sorted(c for c in subscribed if c in w.conns)
+            if exc is None and not errs and n1 > n0:
+                res["nontrivial"]["C02"] += 1
+                if got != want_rcpt and got != sorted(set(want_rcpt) | {x}):
+                    viol02.append("add by connection %d (whose close had failed on a locked database; the connection was kept) was "
+                                  "accepted and stored, but delivered to connections %s while %s are subscribed" % (x, got, want_rcpt))
         # a command after a commit that went through: every frame must be clean again
         c5, b5 = client(app, "s1")
         for ev in ({"k": "cmd", "c": c5, "msg": b5}, {"k": "cmd", "c": c5, "msg": {"type": "claim", "nameplate": "9"}},
@@ -279,6 +319,16 @@ def _case(args):
                     if v is None or v % b != 0 or not any(t - b < v <= t for t in arrivals):
                         viol16.append("usage %s row %s: timestamp %s is not an arrival time rounded down to a "
                                       "multiple of the blur interval (%d s)" % (tbl, json.dumps(row), v, cfg["blur"]))
+        if want == "C15":
+            us = w.dump_usage(w.usage_db)
+            res["nontrivial"]["C15"] = len(us["np"]) + len(us["mb"])
+            if M.is_empty(chan) and not in_tx():
+                if len(us["np"]) != len(ledger["np"]):
+                    viol15.append("%d nameplates were stored and retired over the history, the usage database has %d nameplate records: %s"
+                                  % (len(ledger["np"]), len(us["np"]), json.dumps(us["np"])[:400]))
+                if len(us["mb"]) != ledger["mb_n"]:
+                    viol15.append("%d mailboxes were stored and retired over the history, the usage database has %d mailbox records: %s"
+                                  % (ledger["mb_n"], len(us["mb"]), json.dumps(us["mb"])[:400]))
         res["n_events"] = len(events)
 
         def meta(pid, viol):
@@ -299,6 +349,8 @@ def _case(args):
             res["meta"]["C02"] = meta("C02", viol02)
         if viol03:
             res["meta"]["C03"] = meta("C03", viol03)
+        if viol15:
+            res["meta"]["C15"] = meta("C15", viol15)
         if viol14:
             for _p in ("C14", "C07", "C08"):
                 res["meta"][_p] = meta(_p, viol14)
